@@ -32,7 +32,7 @@ N3 = max(len(t) for t in TAB3.values())
 def h_hist2(bi: int, c1: int, c2: int) -> bool:
   """
   pre: 0 <= bi < 4 and 0 <= c1 < N2 and 0 <= c2 < N2
-  pre: (c1 * 4 + bi) % NPART == PART
+  pre: (c1 + c2 + bi) % NPART == PART
   post: _ == True
   """
   vp.enter("h2")
@@ -44,7 +44,7 @@ def h_hist2(bi: int, c1: int, c2: int) -> bool:
 def h_hist3(bi: int, c1: int, c2: int, c3: int) -> bool:
   """
   pre: 0 <= bi < 4 and 0 <= c1 < N3 and 0 <= c2 < N3 and 0 <= c3 < N3
-  pre: (c1 * 4 + bi) % NPART == PART
+  pre: (c1 + c2 + bi) % NPART == PART
   post: _ == True
   """
   vp.enter("h3")
